@@ -299,7 +299,7 @@ impl Font {
                     let c1 = code(p.as_usize()?)?;
                     match iter.next() {
                         Some(Primitive::Array(array)) => {
-                            code(c1 + array.len())?;
+                            code((c1 + array.len()).saturating_sub(1))?;
                             widths.ensure_cid((c1 + array.len()).saturating_sub(1));
                             for (i, w) in array.iter().enumerate() {
                                 widths.set(c1 + i, w.as_number()?);
@@ -308,7 +308,7 @@ impl Font {
                         Some(&Primitive::Reference(r)) => {
                             match resolve.resolve(r)? {
                                 Primitive::Array(array) => {
-                                    code(c1 + array.len())?;
+                                    code((c1 + array.len()).saturating_sub(1))?;
                                     widths.ensure_cid((c1 + array.len()).saturating_sub(1));
                                     for (i, w) in array.iter().enumerate() {
                                         widths.set(c1 + i, w.as_number()?);
